@@ -636,6 +636,51 @@ Section Model.
   Definition wire_bytes (w : list (bool * bytes)) : bytes := concat (map snd w).
 End Model.
 
+(* What is assumed of openssl's verification (the part of the property that is not proxy.py's logic):
+   [chain_ok cafile] - the origin's certificate chain verifies against that trust store (issuer known,
+   within its validity period); [name_ok host] - the certificate names that host.
+   With CERT_REQUIRED a bad chain fails the handshake, and with check_hostname a wrong name does. *)
+Definition openssl_spec (handshake : wrap_call -> hs_result)
+           (chain_ok : option bytes -> bool) (name_ok : bytes -> bool) : Prop :=
+  (forall c, wc_verify_mode c = CERT_REQUIRED -> chain_ok (wc_cafile c) = false ->
+             handshake c = HsRaise SSLCertVerificationError) /\
+  (forall c hn, wc_verify_mode c = CERT_REQUIRED -> wc_check_hostname c = true ->
+                wc_server_hostname c = Some hn -> name_ok hn = false ->
+                handshake c = HsRaise SSLCertVerificationError).
+
+(* the chunks an event list delivers *)
+Definition client_chunks (evs : list event) : list bytes :=
+  flat_map (fun ev => match ev with ClientData _ raw => [raw] | _ => [] end) evs.
+Definition upstream_chunks (evs : list event) : list bytes :=
+  flat_map (fun ev => match ev with UpstreamData _ raw => [raw] | _ => [] end) evs.
+(* the do_intercept answers given at an event *)
+Definition event_answers (ev : event) : option (list bool) :=
+  match ev with ClientData a _ | UpstreamData a _ => Some a | _ => None end.
+Definition is_FlushClient (ev : event) : bool := match ev with FlushClient => true | _ => false end.
+
+Section Reference.
+  Variable PS RS : Type.
+  Variable pipeline_step : PS -> bytes -> option (PS * list bytes).
+  Variable response_step : RS -> bytes -> option RS.
+  (* what on_client_data queues for the origin when fed these decrypted chunks in order (C02's subject) *)
+  Fixpoint pipeline_outs (p : PS) (raws : list bytes) : option (list bytes) :=
+    match raws with
+    | [] => Some []
+    | raw :: t =>
+        match pipeline_step p raw with
+        | Some (p', outs) => option_map (app outs) (pipeline_outs p' t)
+        | None => None
+        end
+    end.
+  Fixpoint responses_ok (r : RS) (raws : list bytes) : bool :=
+    match raws with
+    | [] => true
+    | raw :: t => match response_step r raw with Some r' => responses_ok r' t | None => false end
+    end.
+End Reference.
+Arguments pipeline_outs {PS} pipeline_step p raws.
+Arguments responses_ok {RS} response_step r raws.
+
 Arguments ps {PS RS} h.
 Arguments mode {PS RS} h.
 Arguments escaped {PS RS} h.
